@@ -107,7 +107,66 @@ pub fn layout(v: u32) -> KeyboardLayout {
     }
 }
 
+/// Build the Connector for a configuration. The builder's setters are independent of each other, so the order in
+/// which an application calls them - and whether it called one before with another value - must not matter: three
+/// configurations in four are built in an order derived from the configuration itself, some setters being called
+/// first with a decoy value and later with the final one.
 pub fn connector(c: &ConnCfg) -> Connector {
+    let h = crate::rng::fnv(c.to_json().to_string().as_bytes());
+    if h % 4 == 0 {
+        return connector_in_order(c);
+    }
+    let mut r = Rng::new(h);
+    // 0 screen, 1 credentials, 2 restricted admin, 3 auto logon, 4 blank creds, 5 layout, 6 check certificate, 7 name, 8 nla
+    let apply = |k: Connector, which: usize, decoy: bool| -> Connector {
+        match which {
+            0 => {
+                if decoy {
+                    k.screen(c.height.wrapping_add(7), c.width.wrapping_add(3))
+                } else {
+                    k.screen(c.width, c.height)
+                }
+            }
+            1 => {
+                if decoy {
+                    k.credentials("DECOYDOM".to_string(), "decoyuser".to_string(), "decoy-password-QXZJ".to_string())
+                } else {
+                    k.credentials(c.domain.clone(), c.user.clone(), c.password.clone())
+                }
+            }
+            2 => k.set_restricted_admin_mode(c.restricted_admin ^ decoy),
+            3 => k.auto_logon(c.auto_logon ^ decoy),
+            4 => k.blank_creds(c.blank_creds ^ decoy),
+            5 => k.layout(layout(if decoy { 0x411 } else { c.layout })),
+            6 => k.check_certificate(c.check_certificate ^ decoy),
+            7 => k.name(if decoy { "decoy-name".to_string() } else { c.name.clone() }),
+            _ => k.use_nla(c.nla ^ decoy),
+        }
+    };
+    let shuffled = |r: &mut Rng| -> Vec<usize> {
+        let mut v: Vec<usize> = (0..9).collect();
+        for i in (1..v.len()).rev() {
+            let j = r.below(i as u64 + 1) as usize;
+            v.swap(i, j);
+        }
+        v
+    };
+    let mut k = Connector::new();
+    for which in shuffled(&mut r) {
+        if r.chance(1, 2) {
+            k = apply(k, which, true);
+        }
+    }
+    for which in shuffled(&mut r) {
+        k = apply(k, which, false);
+    }
+    if let Some(hh) = &c.hash {
+        k = k.set_password_hash(hh.clone());
+    }
+    k
+}
+
+pub fn connector_in_order(c: &ConnCfg) -> Connector {
     let mut k = Connector::new()
         .screen(c.width, c.height)
         .credentials(c.domain.clone(), c.user.clone(), c.password.clone())
